@@ -8,14 +8,28 @@
    one_closes         : stream.One has `defer s.Close()` (today: never closes).
    xslices_runs_fixed : xslices.Runs starts with `end := 1` and appends s[start:] at the end iff
                         len(s) > 0 (originally `end := 0 ... if end > 0`: a leading run of length
-                        one was lost). *)
+                        one was lost).
+   reducers_defer_close (not a repair - a switch for a breaking change that must be detected):
+                        stream.Collect/Reduce/Last/One close their stream by `defer s.Close()`
+                        (true: the code of /repo, before and after the repairs).  false: the
+                        variant "explicit s.Close() before every return" - the same on every
+                        normal way out, but a panic raised by the reduction function, by a
+                        callback further down or by a source's Next leaves the stream unclosed
+                        (C09_reducer_explicit_close_refuted). *)
 Definition last_n0_guard : bool := true.
 Definition one_closes : bool := true.
 Definition xslices_runs_fixed : bool := true.
 
-Record config := mkConfig { cfg_last_guard : bool; cfg_one_closes : bool; cfg_xs_runs_fixed : bool }.
+Definition reducers_defer_close : bool := true.
 
-Definition current_cfg : config := mkConfig last_n0_guard one_closes xslices_runs_fixed.
-Definition fixed_cfg : config := mkConfig true true true.
-(* the tree as it was before any repair: the `_refuted` witnesses are stated for it *)
-Definition original_cfg : config := mkConfig false false false.
+Record config := mkConfig { cfg_last_guard : bool; cfg_one_closes : bool; cfg_xs_runs_fixed : bool;
+                            cfg_defer_close : bool }.
+
+Definition current_cfg : config :=
+  mkConfig last_n0_guard one_closes xslices_runs_fixed reducers_defer_close.
+Definition fixed_cfg : config := mkConfig true true true true.
+(* the tree as it was before any repair: the `_refuted` witnesses are stated for it
+   (the reducers that closed at all did so by defer) *)
+Definition original_cfg : config := mkConfig false false false true.
+(* the repaired tree with the reducers closing explicitly instead of by defer *)
+Definition explicit_close_cfg : config := mkConfig true true true false.
